@@ -229,8 +229,8 @@ func worldC12(w *World) {
 			if c.Status != 200 && c.Status != 400 && c.Status != 408 && c.Status != 500 {
 				w.Violation("status", "a shim call was answered with an unexpected status | %s: %d", name, c.Status)
 			}
-			if c.Kind == "poll" && c.RetAt-c.At > 21*time.Second {
-				w.Violation("unanswered", "a poll took longer than its 20 s window | %s returned after %v", name, c.RetAt-c.At)
+			if c.RetAt-c.At > 5*time.Minute {
+				w.Violation("unanswered", "a shim call was only answered after more than five simulated minutes | %s returned after %v", name, c.RetAt-c.At)
 			}
 			if (c.Arg == "unknown" || c.Arg == "malformed" || c.Arg == "empty") && c.Status != 400 {
 				w.Violation("rejected", "a call with an unknown session ID or malformed body was not rejected with 400 | %s: %d", name, c.Status)
